@@ -82,13 +82,24 @@ def main():
             finally:
                 sh("git -C %s checkout -- ." % REPO)
                 sh("git -C %s clean -fdq amoco tests" % REPO)
-            json.dump(res, open(os.path.join(d, "result%s.json" % k), "w"), indent=1)
+            rp = os.path.join(d, "result%s.json" % k)
+            try:
+                prev = json.load(open(rp))
+                if "thorough" in prev:
+                    res["thorough"] = prev["thorough"]
+            except Exception:
+                pass
+            json.dump(res, open(rp, "w"), indent=1)
     # summary
     rows = []
     for f in sorted(glob.glob(os.path.join(ROOT, "seeded", "C*", "result*.json"))):
         r = json.load(open(f))
         cs = "; ".join("%s: exit %s, %d VIOLATION lines, %ss" % (c, v["exit"], v["violations"], v["wall_s"]) for c, v in r.get("checks", {}).items())
-        rows.append("| %s | %s | %s | %s | %s |" % (r["property"], r["patch"], (r.get("summary") or "").replace("|", "/")[:160], "yes" if r.get("detected") else "NO", cs or r.get("applied")))
+        th = r.get("thorough")
+        if th:
+            cs += "; THOROUGH tier: exit %s - %s" % (th.get("exit"), th.get("evidence", "")[:160])
+        caught = "yes" if r.get("detected") else ("thorough only" if th and th.get("detected") else "NO")
+        rows.append("| %s | %s | %s | %s | %s |" % (r["property"], r["patch"], (r.get("summary") or "").replace("|", "/")[:160], caught, cs or r.get("applied")))
     open(os.path.join(ROOT, "seeded", "RESULTS.md"), "w").write(
         "# Seeded regressions (written by sub-agents that saw only the property text) against the registered checks\n\n"
         "| property | patch | change | caught | check runs (quick tier unless stated) |\n|---|---|---|---|---|\n" + "\n".join(rows) + "\n")
